@@ -207,6 +207,20 @@ def main():
             o.write("// @generated by tools/gen_catalogue.py\nuse crate::cat::CatFmt;\nuse crate::cat_entry;\n\n#[inline(never)]\npub fn entries(v: &mut Vec<CatFmt>) {\n")
             o.write("\n".join(rows[i:i + per]))
             o.write("\n}\n")
+    # writer/parser rows for the prebuilt formats (C08)
+    wrows = []
+    for name, p2 in prebuilt_names():
+        cfg = '#[cfg(feature = "power-of-two")] ' if p2 else ""
+        wrows.append(f'    {cfg}v.push(float_fmt!(T, "{name}", lexical_core::format::{name}));')
+    wper = 8
+    wmods = []
+    for i in range(0, len(wrows), wper):
+        m = f"w{i // wper:03d}"
+        wmods.append(m)
+        with open(os.path.join(OUT, m + ".rs"), "w") as o:
+            o.write("// @generated by tools/gen_catalogue.py\nuse crate::common::Flt;\nuse crate::float_fmt;\nuse crate::fmtcat::FloatFmt;\n\n#[inline(never)]\npub fn entries<T: Flt>(v: &mut Vec<FloatFmt<T>>) {\n")
+            o.write("\n".join(wrows[i:i + wper]))
+            o.write("\n}\n")
     with open(os.path.join(OUT, "mod.rs"), "w") as o:
         o.write("// @generated by tools/gen_catalogue.py\n")
         for m in mods:
@@ -214,6 +228,12 @@ def main():
         o.write("\npub fn all() -> Vec<crate::cat::CatFmt> {\n    let mut v = Vec::new();\n")
         for m in mods:
             o.write(f"    {m}::entries(&mut v);\n")
+        o.write("    v\n}\n")
+        for m in wmods:
+            o.write(f"mod {m};\n")
+        o.write("\npub fn prebuilt_writers<T: crate::common::Flt>() -> Vec<crate::fmtcat::FloatFmt<T>> {\n    let mut v = Vec::new();\n")
+        for m in wmods:
+            o.write(f"    {m}::entries::<T>(&mut v);\n")
         o.write("    v\n}\n")
     print(f"catalogue: {len(fs)} generated formats + {len(prebuilt_names())} prebuilt in {len(mods)} modules")
 
